@@ -17,6 +17,7 @@ import (
 	"math/rand"
 	"os"
 	"path/filepath"
+	"strings"
 	"sync"
 	"time"
 
@@ -209,6 +210,9 @@ func record(rec *RecRec) {
 				hx.Die(e)
 			}
 			fname = d + "/rec.mid"
+			if rec.Extra == "retry" { // the target directory does not exist yet: the first save fails, the second (after it was made) must work
+				fname = d + "/later/rec.mid"
+			}
 			stopf, err = smf.RecordTo(ins[0], bpm, fname)
 		default:
 			hx.Die("unknown via", rec.Via)
@@ -218,7 +222,7 @@ func record(rec *RecRec) {
 		}
 	})
 	if fname != "" {
-		defer os.RemoveAll(fname[:len(fname)-len("/rec.mid")])
+		defer os.RemoveAll(strings.TrimSuffix(strings.TrimSuffix(fname, "/rec.mid"), "/later"))
 	}
 	if p != "" || err != nil {
 		rec.Panic = fmt.Sprintf("setup: %s %v", p, err)
@@ -302,6 +306,13 @@ func record(rec *RecRec) {
 		p = hx.Catch(func() { n, err = file.WriteTo(&buf) })
 	case "file":
 		p = hx.Catch(func() { err = stopf() })
+		if rec.Extra == "retry" && p == "" {
+			if err == nil {
+				rec.Panic = "the save into a directory that does not exist reported no error"
+			}
+			os.MkdirAll(filepath.Dir(fname), 0o755)
+			p = hx.Catch(func() { err = stopf() }) // stop again: now the file can be written
+		}
 		if p == "" && err == nil {
 			var bt []byte
 			bt, err = os.ReadFile(fname)
@@ -635,6 +646,9 @@ func cmdGen(args []string) {
 			s.Via, s.Extra, s.ExtraAt = "smf", "record2", r.Intn(len(s.Chunks)+1)
 		default:
 			s.Via, s.Res = "file", 960
+			if i%14 == 5 {
+				s.Extra = "retry"
+			}
 			var total int64 // resolution changed: keep the session inside the delta domain
 			budget := (int64(1)<<28 - 16) * 6000000 / (int64(s.Res) * int64(s.Bpm100))
 			for j := range s.Chunks {
